@@ -207,10 +207,16 @@ type c14Decision struct {
 	Balance []string // per cluster x request: sub|backend or error
 }
 
-func (d *c14Decision) diff(o *c14Decision) (component string, detail string) {
+type c14Diff struct{ comp, detail string }
+
+// diffs lists the components in which two decision vectors differ (first
+// instance of each): acceptance, product, cluster, backend.
+func (d *c14Decision) diffs(o *c14Decision) []c14Diff {
 	if d.Accept != o.Accept {
-		return "acceptance", fmt.Sprintf("%s vs %s", d.Accept, o.Accept)
+		return []c14Diff{{"acceptance", fmt.Sprintf("%s vs %s", d.Accept, o.Accept)}}
 	}
+	var out []c14Diff
+	seen := map[string]bool{}
 	for i := range d.Route {
 		if i < len(o.Route) && d.Route[i] != o.Route[i] {
 			a, b := strings.Split(d.Route[i], "|"), strings.Split(o.Route[i], "|")
@@ -218,18 +224,22 @@ func (d *c14Decision) diff(o *c14Decision) (component string, detail string) {
 			if a[1] != b[1] {
 				comp = "product"
 			}
-			return comp, fmt.Sprintf("probe #%d %s: %s vs %s", i, a[0], strings.Join(a[1:], "|"), strings.Join(b[1:], "|"))
+			if !seen[comp] {
+				seen[comp] = true
+				out = append(out, c14Diff{comp, fmt.Sprintf("probe #%d %s: %s vs %s", i, a[0], strings.Join(a[1:], "|"), strings.Join(b[1:], "|"))})
+			}
 		}
 	}
 	if len(d.Balance) != len(o.Balance) {
-		return "backend", "different number of balance results"
+		return append(out, c14Diff{"backend", "different number of balance results"})
 	}
 	for i := range d.Balance {
 		if d.Balance[i] != o.Balance[i] {
-			return "backend", fmt.Sprintf("balance step #%d: %s vs %s", i, d.Balance[i], o.Balance[i])
+			out = append(out, c14Diff{"backend", fmt.Sprintf("balance step #%d: %s vs %s", i, d.Balance[i], o.Balance[i])})
+			break
 		}
 	}
-	return "", ""
+	return out
 }
 
 // c14Load performs one independent load (+ extra same-file reloads) and returns the decision vector.
@@ -317,24 +327,35 @@ func c14RunConf(r *vkit.Run, c *c14Conf, fs *fileSet, R int) {
 	}
 	// first[e] = first decision seen with e extra same-file reloads
 	var first [3]*c14Decision
-	outcomes := map[string]int{}
+	reported := map[string]bool{}
 	failed := false
-	for k := 0; k < R; k++ {
+	loads := 0
+	stopAt := R
+	for k := 0; k < R && k < stopAt; k++ {
 		var d *c14Decision
 		extra := k % 3
 		if r.Try(func() interface{} { return c }, func() { d = c14Load(c, fs, extra) }) {
 			return
 		}
-		outcomes[d.Accept]++
+		loads++
 		if first[extra] == nil {
 			first[extra] = d
 			continue
 		}
-		if comp, detail := first[extra].diff(d); comp != "" && !failed {
-			failed = true
-			r.Violation("nondet:"+c.Hazard+":"+comp,
-				fmt.Sprintf("load #%d and load #%d (same files, same number of reloads) disagree (%s): %s", extra, k, comp, detail),
-				map[string]interface{}{"conf": c, "load_a": extra, "load_b": k, "component": comp, "detail": detail})
+		for _, df := range first[extra].diffs(d) {
+			if !failed {
+				// order dependence is established; a dozen more loads look for further
+				// components (a known finding must not hide a different one), then stop
+				failed = true
+				stopAt = k + 13
+			}
+			if reported[df.comp] {
+				continue
+			}
+			reported[df.comp] = true
+			r.Violation("nondet:"+c.Hazard+":"+df.comp,
+				fmt.Sprintf("load #%d and load #%d (same files, same number of reloads) disagree (%s): %s", extra, k, df.comp, df.detail),
+				map[string]interface{}{"conf": c, "load_a": extra, "load_b": k, "component": df.comp, "detail": df.detail})
 		}
 	}
 	// same files, different number of same-file reloads: must agree as well. Only
@@ -344,20 +365,20 @@ func c14RunConf(r *vkit.Run, c *c14Conf, fs *fileSet, R int) {
 		if first[0] == nil || first[e] == nil {
 			continue
 		}
-		if comp, detail := first[0].diff(first[e]); comp != "" {
+		for _, df := range first[0].diffs(first[e]) {
 			failed = true
-			r.Violation("reload-count:"+c.Hazard+":"+comp,
-				fmt.Sprintf("the same files give a different decision after %d additional BalTableReload of the same files (%s): %s", e, comp, detail),
-				map[string]interface{}{"conf": c, "load_a": 0, "load_b": e, "component": comp, "detail": detail})
+			r.Violation("reload-count:"+c.Hazard+":"+df.comp,
+				fmt.Sprintf("the same files give a different decision after %d additional BalTableReload of the same files (%s): %s", e, df.comp, df.detail),
+				map[string]interface{}{"conf": c, "load_a": 0, "load_b": e, "component": df.comp, "detail": df.detail})
 		}
 	}
-	r.Evals(int64(R) - 1)
+	r.Evals(int64(loads) - 1)
 	key := c.Hazard
 	for _, n := range c13FileNames {
 		key += "|" + c.Files[n]
 	}
 	r.CaseS(key, c.Hazard != "none")
-	r.Count("loads", int64(R))
+	r.Count("loads", int64(loads))
 	r.Count("hazard_"+c.Hazard, 1)
 	out := "always-same"
 	if failed {
@@ -370,7 +391,7 @@ func c14RunConf(r *vkit.Run, c *c14Conf, fs *fileSet, R int) {
 }
 
 func c14(r *vkit.Run) {
-	r.SetRule("file sets built from a fixed skeleton (2 products, 3 host-tags, exact+wildcard hosts, vips, basic+advanced rules that expose the host-tag in the cluster choice, 6 clusters x 1-3 sub-clusters x 2-4 equal-weight backends, random names/weights) with exactly one hazard injected: " + strings.Join(c14Hazards, ", ") + ". Each file set is loaded R times (q 40 / t 400) in this process - LoadServerDataConf + BalTable.Init, followed by 0/1/2 BalTableReload of the same files (load index mod 3); for reload-adds-backends an older cluster_table generation is loaded first. Decision vector = (product, cluster, error?) of ~40 probe requests (host spellings x vip x path) and (sub-cluster, backend) of 8 Balance calls per cluster with fixed client addresses (hash strategy client-ip, no slow start, so no clock or PRNG is involved). Pass = all R vectors equal, or all R loads rejected. Non-trivial = a hazard is present; distinct = file contents")
+	r.SetRule("file sets built from a fixed skeleton (2 products, 3 host-tags, exact+wildcard hosts, vips, basic+advanced rules that expose the host-tag in the cluster choice, 6 clusters x 1-3 sub-clusters x 2-4 equal-weight backends, random names/weights) with exactly one hazard injected: " + strings.Join(c14Hazards, ", ") + ". Each file set is loaded R times (q 40 / t 400; a file set already shown order-dependent is abandoned 13 loads later) in this process - LoadServerDataConf + BalTable.Init, followed by 0/1/2 BalTableReload of the same files (load index mod 3); for reload-adds-backends an older cluster_table generation is loaded first. Decision vector = (product, cluster, error?) of ~40 probe requests (host spellings x vip x path) and (sub-cluster, backend) of 8 Balance calls per cluster with fixed client addresses (hash strategy client-ip, no slow start, so no clock or PRNG is involved). Pass = all R vectors equal, or all R loads rejected. Non-trivial = a hazard is present; distinct = file contents")
 	r.Assume("Go randomises map iteration per range statement, so R in-process loads sample R independent visiting orders; child processes add nothing for these loaders (no package-level state)")
 	if r.Replay != "" {
 		var w struct {
@@ -390,7 +411,7 @@ func c14(r *vkit.Run) {
 		r.SetMinDistinct(0)
 		return
 	}
-	perHazard := r.N(20, 150)
+	perHazard := r.N(20, 120)
 	R := r.N(40, 400)
 	n := perHazard * len(c14Hazards)
 	vkit.Parallel(n, 0, func(i int) {
